@@ -267,8 +267,14 @@ def plain_classes():
         def __hash__(self):
             return 3
 
+    class NoRepr(UserNode):
+        """A node whose repr() is not available (e.g. needs an attribute that is set later)."""
+
+        def __repr__(self):
+            raise RuntimeError("repr() of this node is not available")
+
     _PLAIN.update(node=Node, anynode=AnyNode, user=UserNode, light=UserLight, weird=Weird, eqhash=EqHash, falsy=Falsy,
-                  falsylight=FalsyLight)
+                  falsylight=FalsyLight, norepr=NoRepr)
     return _PLAIN
 
 
